@@ -24,6 +24,9 @@ var c08Unders = []enumUnder{
 	{"uint64-big", space.B("uint64"), []string{"18446744073709551615", "18446744073709551614", "1"}, []string{"1", "2", "3"}},
 	{"string", space.B("string"), []string{`"a"`, `"b"`, `"zz"`}, []string{`"x"`, `"y"`, `"z"`}},
 	{"float64", space.B("float64"), []string{"1", "1.5", "2"}, []string{"2", "1", "1.5"}},
+	// target members whose value is the zero value (an ignored source member leaves the zero value too, yet the two are different mappings)
+	{"int-zero-target", space.B("int"), []string{"1", "2", "3"}, []string{"0", "1", "2"}},
+	{"string-empty-target", space.B("string"), []string{`"a"`, `"b"`, `"zz"`}, []string{`""`, `"y"`, `"z"`}},
 }
 
 // memberSet describes which members exist on both sides (names are suffixes appended to the scenario prefix).
@@ -51,6 +54,7 @@ var c08Members = []memberSet{
 // c08 method-level line menus; $P is replaced by the scenario's member prefix.
 var c08MapMenu = []string{"", "enum:map $PSx $PTx", "enum:map $PSx @ignore", "enum:map $PSx @panic", "enum:map $PSx @error", "enum:map $PC $PA",
 	"enum:map $PA2 $PA", "enum:map $PA2 $PB", "enum:map $PNope $PA", "enum:map $PA $PNope", "enum:map $PA @bad",
+	"enum:map $PA2 @ignore", "enum:map $PA2 @panic", "enum:map $PA2 @error", "enum:map $PA @ignore",
 	"enum:transform regex $PCol(\\w) $P$1", "enum:transform regex Zzz(\\w) Q$1", "enum:transform regex ( x", "enum:transform regex $P(\\w)x $P${1}x"}
 
 var c08UnknownMenu = []string{"", "@error", "@panic", "@ignore", "$PA", "$PNope", "@bad"}
